@@ -654,7 +654,29 @@ def _strategy(max_ops: int):
     })
 
 
+def _grid_cases() -> list:
+    """
+    Every forged-cell variant (6 bits: cipher direction, claimed source, plaintext flag, shape, address family, bare)
+    against every entry of two circuits in use, on each kind of endpoint stack - independent of what is drawn.
+    """
+    out = []
+    for stack in (None, "v4", "dual"):
+        for hops in (1, 2, 3):
+            # a circuit of `hops` hops has 2 * hops entries (originator, two per relay, exit)
+            for e in range(2 * hops):
+                ops = [["open", 1, hops - 1, 3], ["open", 2, 2, 6], ["send", 0, 1], ["send", 1, 2]]
+                ops += [["forged_cell", 0, e, v] for v in range(64)]
+                out.append({"nodes": 5, "stack": stack, "ops": ops})
+    return out
+
+
 def _shard(ctx: Ctx, shard: int, nshards: int, n: int, max_ops: int) -> None:
+    for k, case in enumerate(_grid_cases()):
+        if k % nshards == shard:
+            try:
+                run_case(ctx, case)
+            except Violation as v:
+                ctx.violation(v)
     hyp_run(ctx, "histories", _strategy(max_ops), lambda c: run_case(ctx, c), n)
     from hypothesis import strategies as st
     reuse = st.tuples(st.sampled_from([0.1, 0.5, 1.0, 3.0]), st.sampled_from([0.2, 1.0, 5.2, 5.6, 6.5, 8.0]),
